@@ -148,6 +148,17 @@ class Gen:
         self.rng = rng
         self.max_depth = max_depth
         self.counter = {}
+        self.force_full = False
+
+    def full(self, cname, v):
+        """the value of class cname that has EVERY item of version v, at every nesting level (optional items once,
+        repeated items twice): version-guarded items of nested classes are present inside their containers"""
+        self.force_full = True
+        try:
+            items = self.s.active(cname, v)
+            return self.struct(cname, v, 0, [1 if it['mult'] in ('Req', 'Opt') else 2 for it in items])
+        finally:
+            self.force_full = False
 
     def rot(self, key, pool):
         """boundary values first (round robin per type), then seeded random picks"""
@@ -217,6 +228,8 @@ class Gen:
                 n = self.rng.choice([1, 1, 2, 3])
             elif depth >= self.max_depth:
                 n = 0
+            elif self.force_full:
+                n = 1                                     # everything present, recursively (repeated items once below the top)
             elif it['mult'] == 'Opt':
                 n = 1 if self.rng.random() < 0.6 else 0
             else:
